@@ -63,10 +63,10 @@ func OpenPty() (*os.File, string, error) {
 
 // Opts configures Start.
 type Opts struct {
-	NoTTY bool     // run in a new session without any controlling terminal
-	Env   []string // extra environment
-	Dir   string
-	Stdin []byte // only with NoTTY
+	NoTTY      bool     // run in a new session without any controlling terminal
+	Env        []string // extra environment
+	Dir        string
+	Stdin      []byte     // only with NoTTY
 	ExtraFiles []*os.File // become fd 3, 4, ... of the program
 }
 
